@@ -77,6 +77,12 @@ func judge(spec *clientSpec, pol *policy, d *dlog) ([]finding, jstats) {
 	attempts := 0 // method-terminating FAILUREs (full or partial) for methods other than none
 	callbacks := 0
 	disconnectSent := false
+	// runs of consecutive requests of one method, and the method-terminating
+	// list that was in force when each run began
+	var runMethod, prevRunMethod string
+	var runStartList, prevRunStartList []string
+	signErrorInRun, signErrorInPrevRun := false, false
+	runFlagged := false // a request of the current run was already reported as unlisted
 	// RSA certificates whose SHA-2 offer was not accepted and for which the
 	// documented ssh-rsa-cert-v01 retry is still outstanding (key blob -> event)
 	compatDue := map[string]int{}
@@ -89,6 +95,11 @@ func judge(spec *clientSpec, pol *policy, d *dlog) ([]finding, jstats) {
 
 	for i, e := range d.ev {
 		switch e.Kind {
+		case "APP":
+			if e.App == "sign-error" {
+				signErrorInRun = true
+				st["signing_errors"]++
+			}
 		case "CB":
 			callbacks++
 			exempt = e.CBMethod != ""
@@ -197,6 +208,9 @@ func judge(spec *clientSpec, pol *policy, d *dlog) ([]finding, jstats) {
 			lastReq, lastReqAnswered = m, false
 			if !sameMethodAsPrev {
 				retryRun = 0
+				prevRunMethod, prevRunStartList, signErrorInPrevRun = runMethod, runStartList, signErrorInRun
+				runMethod, runStartList, signErrorInRun = m.Method, slices.Clone(listTerm), false
+				runFlagged = false
 			}
 			st["requests"]++
 			st["requests:"+m.Method]++
@@ -219,6 +233,8 @@ func judge(spec *clientSpec, pol *policy, d *dlog) ([]finding, jstats) {
 				st["initial_none"]++
 			case exempt:
 				st["requests_in_callback_chosen_attempt"]++
+			case runFlagged && sameMethodAsPrev:
+				st["further_requests_of_an_attempt_already_reported"]++
 			default:
 				inList := haveList && (slices.Contains(listTerm, m.Method) || slices.Contains(listAny, m.Method))
 				if inList {
@@ -247,7 +263,21 @@ func judge(spec *clientSpec, pol *policy, d *dlog) ([]finding, jstats) {
 						if lastTermFailurePartial {
 							k += ":after-partial-success"
 						}
-						add(k, i, map[string]any{"last_list": listTerm, "last_list_any": listAny})
+						// A recognisable special case gets its own key: the method is taken
+						// from the list that was in force before the previous method ran,
+						// and that method either was a RetryableAuthMethod (whose last inner
+						// run ended without a server FAILURE) or ended in a local signing
+						// error: the newer list the server sent in between was dropped.
+						if pm := spec.method(prevRunMethod); pm != nil && !sameMethodAsPrev && slices.Contains(prevRunStartList, m.Method) {
+							switch {
+							case pm.wrapped:
+								k = "method-from-stale-list:after-retryable-method"
+							case signErrorInPrevRun:
+								k = "method-from-stale-list:after-signing-error"
+							}
+						}
+						runFlagged = true
+						add(k, i, map[string]any{"last_list": listTerm, "last_list_any": listAny, "list_before_previous_method": prevRunStartList, "previous_method": prevRunMethod})
 					}
 				}
 			}
